@@ -75,6 +75,15 @@ func patchBadger(dir string) {
 		os.Exit(1)
 	}
 	patched := strings.Replace(string(src), old, "\tif err := fn(txn); err != nil {\n\t\treturn err\n\t}\n\tif h := VerifHook; h != nil {\n\t\th(\"badger.commit\", \"\")\n\t}\n\n\treturn txn.Commit()\n}", 1)
+	// and both View and Update yield before the transaction is created
+	for _, fn := range []string{"View", "Update"} {
+		head := "func (db *DB) " + fn + "(fn func(txn *Txn) error) error {\n"
+		if strings.Count(patched, head) != 1 {
+			fmt.Fprintln(os.Stderr, "autoyield: DB."+fn+" of badger does not have the expected shape")
+			os.Exit(1)
+		}
+		patched = strings.Replace(patched, head, head+"\tif h := VerifHook; h != nil {\n\t\th(\"badger."+strings.ToLower(fn)+"\", \"\")\n\t}\n", 1)
+	}
 	hook := "package badger\n\n// VerifHook, when set, is called by DB.Update between the user's function and\n// the commit (deterministic simulator only; this file exists only in the\n// scratch copy the simulator is built from).\nvar VerifHook func(point, arg string)\n"
 	if err := os.WriteFile(path, []byte(patched), 0o644); err == nil {
 		err = os.WriteFile(filepath.Join(dir, "verif_hook.go"), []byte(hook), 0o644)
@@ -83,7 +92,7 @@ func patchBadger(dir string) {
 		fmt.Fprintln(os.Stderr, "autoyield:", err)
 		os.Exit(1)
 	}
-	fmt.Println("autoyield: badger DB.Update yields before commit")
+	fmt.Println("autoyield: badger DB.View and DB.Update yield before the transaction starts, DB.Update before commit")
 }
 
 func main() {
